@@ -14,6 +14,8 @@ CLAIMS = {
          "f64::from_str is an oracle (table observed from the implementation each run); % on doubles is an exact fmod written in the model; round with decimal places is multiply/round/divide in doubles with 10.0.powi(n) modelled as square-and-multiply, covered by the correspondence only.", "DESIGN.md §6 C15"),
  "C16": ("Theorems in coq/props/C16.v (no axioms) about a transcription of html.rs/url.rs whose entity table, escaped-character set and percent-encoding set are REGENERATED from the source on every run (tools/translate.py -> coq/gen/Consts.v; consts_match pins them to the five entities and the unreserved set of the property): escape output is safe and unescape inverts it; escape_once is safe, keeps existing entities and is idempotent; UTF-8 decode(encode s) = s for all scalar-value strings; url_encode emits only unreserved characters and %XY with upper-case hex; url_decode(url_encode s) = s; failures are error values; strip_html output has no '<' followed by a '>'. Correspondence: exhaustive strings over the entity/URL/tag alphabets (<=4, thorough <=5) plus random longer strings against the extracted model and an independent Python reference (regex/urllib).",
          "the regex crate's semantics (leftmost, lazy, (?is), simple case folding) and the percent-encoding crate are modelled by hand (explicit scanners) and validated by the correspondence only; the functional form of escape() (skip counter) stands for the byte-index loop.", "DESIGN.md §6 C16"),
+ "C13": ("Theorems in coq/props/C13.v (no axioms) about a transcription of the string filters (string/*.rs, slice.rs, size/default, newline_to_br, join/first/last, FilterChain::evaluate) over strings as lists of characters: split-then-join identity, replace = join of split, strip = lstrip after rstrip, slice returns a contiguous piece of at most the requested length and is the documented piece for every offset/length, size counts characters, truncate/truncatewords/append/prepend/replace_first/strip_newlines/case/first/last/default specifications, and the chain-as-composition law — for every string. Correspondence: exhaustive strings over the 10-symbol alphabet (<=2 plus a seeded share of length 3 quick; <=4 thorough) x every filter x arguments and integer arguments -6..8, laws as chains, random strings to 200 with random chains, type-confused operands; against the extracted model and an independent Python reference.",
+         "Rust std str::{split,splitn,replace,trim*} are modelled as list functions; char::to_uppercase/to_lowercase and grapheme clusters are oracles given as tables observed from the implementation in the same run (U+03A3 not generated; truncate after another filter not generated); truncate's length law is proved for strings whose clusters are single characters and stated as a cluster bound otherwise.", "DESIGN.md §6 C13"),
 }
 def main():
     props = [json.loads(l) for l in open(os.path.join(V, "properties.jsonl"))]
